@@ -913,6 +913,33 @@ def strip_prefix_or_self(fw, letnode):
     fw.replace(letnode["init_span"][0], letnode["init_span"][1], "crate::verif_prelude::v_strip_prefix_or_self(&%s, %s)" % (m.group(1), m.group(2)), "W9-R-std-strip-prefix")
 
 
+def entry_or_default_push(fw, fnnode):
+    """R-std: the statement `M.entry(K).or_default().push(V);` (exactly one in `fnnode`) becomes
+    `v_entry_push(&mut M, K, V);` (verified prelude helper: get_mut / insert / push).  M must be a plain local,
+    K and V are kept verbatim.  Anything else between the three calls makes the rule fail."""
+    pushes = []
+    for c in fw.method_calls(fnnode, "push"):
+        kids = [k for k in fw.children.get(c["id"], []) if k["kind"] == "method_call" and list(k["span"]) == list(c["receiver_span"])]
+        if len(kids) == 1 and kids[0]["method"] == "or_default":
+            pushes.append((c, kids[0]))
+    if len(pushes) != 1:
+        raise WeaveError("%s: R-std entry-push: expected exactly one `.or_default().push(..)` in `%s`" % (fw.rel, fw.fn_qualname(fnnode)))
+    push, ordef = pushes[0]
+    ents = [k for k in fw.children.get(ordef["id"], []) if k["kind"] == "method_call" and list(k["span"]) == list(ordef["receiver_span"])]
+    if len(ents) != 1 or ents[0]["method"] != "entry" or len(ents[0]["args"]) != 1 or len(ordef["args"]) != 0 or len(push["args"]) != 1:
+        raise WeaveError("%s: R-std entry-push: not `M.entry(K).or_default().push(V)`" % fw.rel)
+    ent = ents[0]
+    import re
+    recv = fw.text(ent["receiver_span"]).strip()
+    if not re.match(r"^[A-Za-z_][A-Za-z_0-9]*$", recv):
+        raise WeaveError("%s: R-std entry-push: the map `%s` is not a plain local" % (fw.rel, recv))
+    k_txt = fw.text(ent["args"][0]["span"])
+    a, b = push["span"]
+    v0 = push["args"][0]["span"][0]
+    fw.replace(a, v0, "crate::verif_prelude::v_entry_push(&mut %s, %s, " % (recv, k_txt), "W9-R-std-entry-push")
+    return recv
+
+
 # ----------------------------------------------------------------------------- W11 degraded weave
 def apply_fallback(ctx, W, recipe, specs, reason):
     """W11: the anchors of recipe `recipe` are gone on this tree.  Its plain functions (found by path only) are
